@@ -1019,6 +1019,9 @@ pub fn run(opts: &Opts) {
 ///   fork <idxLen> <fid> <len|rm>                  -> ok      alt := snapshot cut to these lengths (closed)
 ///   cut <idxLen> <fid> <len|rm>                   -> ok      main directory cut (closed); `open` follows
 ///   same                                          -> same | diff   alt and main hold the same content
+///   cutfile <fid> <len>                           -> ok      (round 6, power loss: a data file of the
+///        main directory — an older one — cut to a prefix; closed; the `open` that follows runs the
+///        power-loss oracle: succeeds, every retrieve is the block frozen there or an Err)
 ///   race <thrA> <startA> <idsA> <n0T> <k> <n0B> <thrB> <startB> <idsB> <TB|BT>
 ///        -> A=<ok:map|err> T=<ok|err> B=<ok:map|err> n=<number> tip=<tip>
 ///        (round 6) three real threads on one `Freezer`: A = `freeze(thrA)` is held inside its first
@@ -1079,6 +1082,9 @@ mod top {
         pub rollovers: usize,
         pub forks: usize,
         pub errs: usize,
+        /// round 6: the main directory went through a power loss (`cutfile`): outside the
+        /// property's quantifier, `open` runs the power-loss oracle instead of the prefix oracle
+        pub damaged: bool,
     }
 
     fn id_or_dash(i: Option<u64>) -> String {
@@ -1109,6 +1115,7 @@ mod top {
                 rollovers: 0,
                 forks: 0,
                 errs: 0,
+                damaged: false,
             }
         }
 
@@ -1258,7 +1265,75 @@ mod top {
             n
         }
 
+        /// round 6, power loss: data file `fid` of the main directory (an OLDER one, typically) is
+        /// cut to a prefix; the freezer is closed
+        pub fn op_cutfile(&mut self, out: &mut Out, fid: u32, len: u64) {
+            self.main.f = None;
+            let p = self.main.dir.join(file_name(fid));
+            let f = fs::OpenOptions::new().write(true).create(true).truncate(false).open(p).unwrap();
+            let cur = f.metadata().unwrap().len();
+            f.set_len(len.min(cur)).unwrap();
+            self.damaged = true;
+            out.op(&format!("cutfile {fid} {len}"), "ok");
+            out.count("cutfile");
+        }
+
+        /// `Freezer::open` after a power loss.  Oracle on the implementation alone (theorem
+        /// `powerloss_freezer_open_succeeds`): it succeeds, `number` does not grow, the tip is the
+        /// last block kept, and every `retrieve` is the block frozen at that height or an `Err`
+        fn op_open_damaged(&mut self, out: &mut Out) {
+            self.main.f = None;
+            let dir = self.main.dir.clone();
+            let expect = self.main.expect.clone();
+            let (max, limit) = (self.max, self.limit);
+            match std::panic::catch_unwind(std::panic::AssertUnwindSafe(|| Freezer::open(dir.clone()))) {
+                Ok(Ok(f)) => {
+                    f.verif_set_limits(max, limit);
+                    let number = f.number();
+                    let n = number.saturating_sub(1) as usize;
+                    if number < 1 || n > expect.len() {
+                        out.oracle_fail("top-powerloss-number-grew", &format!("number={number} frozen={}", expect.len()));
+                    }
+                    let mut lost = 0;
+                    for i in 1..=n.min(expect.len()) {
+                        match f.retrieve(i as u64) {
+                            Ok(Some(d)) => {
+                                if d != self.blks[expect[i - 1] as usize - 1].raw {
+                                    out.oracle_fail("top-powerloss-wrong-block", &format!("height {i}"));
+                                }
+                            }
+                            Ok(None) => out.oracle_fail("top-powerloss-block-none", &format!("height {i} below number {number}")),
+                            Err(_) => lost += 1,
+                        }
+                    }
+                    let want_tip = if n == 0 || n > expect.len() { None } else { Some(self.blks[expect[n - 1] as usize - 1].view.hash()) };
+                    if n <= expect.len() && f.verif_tip_hash() != want_tip {
+                        out.oracle_fail("top-powerloss-tip", &format!("n={n}"));
+                    }
+                    if lost > 0 {
+                        out.count("top-powerloss-blocks-unreadable-after-open");
+                    }
+                    out.op("open", &format!("ok {} {}", number, self.tip_id(&f)));
+                    self.main.expect.truncate(n);
+                    self.main.min_keep = 0;
+                    self.main.f = Some(f);
+                }
+                Ok(Err(e)) => {
+                    out.oracle_fail("top-powerloss-open-fails", &format!("{e}"));
+                    out.op("open", "err");
+                }
+                Err(_) => {
+                    out.oracle_fail("top-powerloss-open-panics", "open");
+                    out.op("open", "err");
+                }
+            }
+            out.count("open-after-powerloss");
+        }
+
         pub fn op_open(&mut self, out: &mut Out, alt: bool) {
+            if self.damaged && !alt {
+                return self.op_open_damaged(out);
+            }
             let (dir, expect, min_keep) = {
                 let s = self.slot(alt);
                 s.f = None;
@@ -1929,6 +2004,24 @@ mod top {
                 _ => sim.op_dump(out, false),
             }
         }
+        // round 6: now and then the history ends in a power loss that shortens an OLDER data file
+        if sim.main_open() && rng.chance(1, 3) {
+            let idx = read_index(sim.main_dir());
+            let head = idx.last().map(|e| e.0).unwrap_or(0);
+            if head >= 1 {
+                let fid = rng.below(head as u64) as u32;
+                let cur = fs::metadata(sim.main_dir().join(file_name(fid))).map(|m| m.len()).unwrap_or(0);
+                let offs: Vec<u64> = idx.iter().filter(|(f, _)| *f == fid).map(|(_, o)| *o).collect();
+                let len = match rng.below(3) {
+                    0 if !offs.is_empty() => { let o = *rng.pick(&offs); (o + rng.below(3)).saturating_sub(1).min(cur) }
+                    1 => 0,
+                    _ => rng.range(0, cur),
+                };
+                sim.op_cutfile(out, fid, len);
+                sim.op_open(out, false);
+                shape.push("P".into());
+            }
+        }
         if sim.main_open() {
             sim.op_dump(out, false);
         }
@@ -1986,6 +2079,7 @@ mod top {
                     s.op_cut(out, il, fid, fl);
                 }
                 "same" => s.op_same(out),
+                "cutfile" => s.op_cutfile(out, t[1].parse().unwrap(), t[2].parse().unwrap()),
                 "race" => {
                     let ids = |x: &str| -> Vec<u64> { if x == "-" { vec![] } else { x.split(',').map(|v| v.parse().unwrap()).collect() } };
                     s.op_race(out, t[1].parse().unwrap(), t[2].parse().unwrap(), &ids(t[3]), t[5].parse().unwrap(), t[7].parse().unwrap(), t[8].parse().unwrap(), &ids(t[9]));
